@@ -86,7 +86,24 @@ pub fn simplify_env(c: &EnvCase) -> Vec<EnvCase> {
             d.steps.remove(i);
             v.push(d);
         }
-        for j in (0..c.steps[i].instrs.len()).rev() {
+        let m = c.steps[i].instrs.len();
+        if m > 64 {
+            // a large batch: remove blocks (halves .. sixteenths) instead of single instructions - one candidate per
+            // instruction would cost m copies of an m-instruction case (tens of thousands in the level-population cases)
+            let mut size = m / 2;
+            while size >= (m / 16).max(1) {
+                let mut at = 0;
+                while at < m {
+                    let mut d = c.clone();
+                    d.steps[i].instrs.drain(at..(at + size).min(m));
+                    v.push(d);
+                    at += size;
+                }
+                size /= 2;
+            }
+            continue;
+        }
+        for j in (0..m).rev() {
             let mut d = c.clone();
             d.steps[i].instrs.remove(j);
             v.push(d);
@@ -280,6 +297,50 @@ fn exhaustive_step_counts(name: &str, max_k: usize) -> Part<Case> {
     }
 }
 
+/// One price level holding EXACTLY n orders for n around 2^8 and 2^16 (order counts and level volumes that do not
+/// fit 8 / 16 bits), on the touch or on the level behind it, submitted as one batch (step size n + 16): recorded
+/// per-level counts and volumes are compared with the live book after the step, after a cancel and after a
+/// partial sweep.
+fn exhaustive_level_populations(name: &str, big: bool) -> Part<Case> {
+    let ns: Vec<usize> = if big { vec![255, 256, 257, 65_535, 65_536, 65_537, 70_000, 131_071, 131_073] } else { vec![255, 256, 257, 65_535, 65_536, 65_537] };
+    let total = ns.len() as u64 * 2 * 2 * 2;
+    Part {
+        name: name.to_string(),
+        kind: PartKind::Exhaustive {
+            total,
+            decode: Box::new(move |i| {
+                let market = i % 2 == 1;
+                let bid = (i / 2) % 2 == 0;
+                let behind = (i / 4) % 2 == 1;
+                let n = ns[(i / 8) as usize];
+                let a = if market { 1u8 } else { 0 };
+                let (touch, second, opp) = if bid { (100u32, 98u32, 104u32) } else { (104, 106, 100) };
+                let mut first = vec![
+                    Instr::New { asset: a, bid: true, vol: 2, trader: 9, price: Some(96) },
+                    Instr::New { asset: a, bid: false, vol: 3, trader: 9, price: Some(108) },
+                    Instr::New { asset: a, bid: !bid, vol: 5, trader: 9, price: Some(opp) },
+                    Instr::New { asset: a, bid, vol: 2, trader: 8, price: Some(touch) },
+                ];
+                let level = if behind { second } else { touch };
+                for k in 0..n {
+                    first.push(Instr::New { asset: a, bid, vol: 1, trader: (k % 7) as u32, price: Some(level) });
+                }
+                let steps = vec![
+                    StepSpec { toggle: None, instrs: first },
+                    StepSpec { toggle: None, instrs: vec![] },
+                    // one of the level's orders is cancelled
+                    StepSpec { toggle: None, instrs: vec![Instr::Cancel { asset: a, r: Ref { pref: 100 + 7, ix: 0 } }] },
+                    // a crossing order sweeps part of the level
+                    StepSpec { toggle: None, instrs: vec![Instr::New { asset: a, bid: !bid, vol: 40, trader: 5, price: Some(level) }] },
+                    StepSpec { toggle: None, instrs: vec![] },
+                ];
+                Some(Case::Env(EnvCase { kind_assets: if market { 2 } else { 0 }, levels: 3, ticks: vec![2, 2], t0: 3, step_size: n as u64 + 16, trading: true, seed: n as u64 ^ crate::engine::verif_seed(), steps, drain: true, exact_vols: false, quiet_steps: 0 }))
+            }),
+            description: format!("one price level (the touch or the level behind it) holding exactly n orders for n in {:?} x side x {{Env<3>, second asset of MarketEnv<2,3>}}, submitted as one batch in a step of n + 16 time units; then an empty step, a cancel of one of them, a crossing order that sweeps 40 of them, an empty step and the draining steps", if big { "{255, 256, 257, 65535, 65536, 65537, 70000, 131071, 131073}" } else { "{255, 256, 257, 65535, 65536, 65537}" }),
+        },
+    }
+}
+
 pub fn parts(id: &'static str, tier: Tier) -> Option<(Vec<Part<Case>>, String)> {
     let common = "An environment case is a seed, a configuration (Env<L> for L in 1..24 or MarketEnv<A,L> for A in 1..4; tick sizes 1..10; step size) and a sequence of steps, each a batch of new-order / cancel / modify instructions whose order references are resolved at submission time (including orders created in the same batch), followed by two draining steps. ";
     match id {
@@ -342,7 +403,7 @@ pub fn parts(id: &'static str, tier: Tier) -> Option<(Vec<Part<Case>>, String)> 
             tog.w_new = 50;
             tog.max_batch = 6;
             Some((
- vec![exhaustive_step_counts("exhaustive-step-counts", tier.pick(2049, 4097)), exhaustive_batch_sizes("exhaustive-batch-sizes", false, tier.pick(1, 4)), env_part("env-random-toggles", tog, tier.pick(40_000, 600_000)), env_part("env-random-large-volumes", big_vol_cfg(&c, 24), tier.pick(15_000, 300_000)), env_part("env-random-very-long-runs", longer, tier.pick(600, 12_000)), env_part("env-random-long-runs", long, tier.pick(5_000, 120_000)), exhaustive_env_part("exhaustive-batches-of-3", 3, tier.pick(4, 24), false), env_part("env-random-records", c, tier.pick(200_000, 3_000_000))],
+ vec![exhaustive_level_populations("exhaustive-level-populations", tier != Tier::Quick), exhaustive_step_counts("exhaustive-step-counts", tier.pick(2049, 4097)), exhaustive_batch_sizes("exhaustive-batch-sizes", false, tier.pick(1, 4)), env_part("env-random-toggles", tog, tier.pick(40_000, 600_000)), env_part("env-random-large-volumes", big_vol_cfg(&c, 24), tier.pick(15_000, 300_000)), env_part("env-random-very-long-runs", longer, tier.pick(600, 12_000)), env_part("env-random-long-runs", long, tier.pick(5_000, 120_000)), exhaustive_env_part("exhaustive-batches-of-3", 3, tier.pick(4, 24), false), env_part("env-random-records", c, tier.pick(200_000, 3_000_000))],
                 format!("{}Oracle: after step k every recorded series (touch prices, side volumes, touch volumes and counts, per-level volumes and counts for each of the L levels, per-step traded volume) has exactly k entries, entry k-1 equals the value read from the live book after the step (bid series vs bid getters), earlier entries are unchanged, and traded volume k-1 equals both the volume logged during the step and the volume of trades time-stamped within it. Non-trivial: a step whose book differs between bid and ask in total volume, touch volume and touch count and has an occupied level >= 1 on both sides.", common),
             ))
         }
